@@ -73,6 +73,20 @@ CLAIMS["C12"] = ("fault_enumeration",
                  "listed known finding.", "5-C12", _NOTE,
                  "fault enumeration on the real code + TLC trace validation against JadeMonitor")
 
+CLAIMS["C13"] = _claim("Traces of real submissions run to completion and then resubmitted (8 flag combinations, once or twice, "
+                       "with/without report generation, missing jobs produced by failed sbatch calls; the whole 3-job space of DAGs "
+                       "x exit codes x flags sampled/swept) and of resubmit-jobs on incomplete submissions (nobody submitter / a "
+                       "compute node holds the role, other or same host) are validated by TLC against the epoch-aware clauses of "
+                       "JadeMonitor (RerunExactly, RerunAllFresh, UntouchedPreserved, StartAfterBlockers per epoch, "
+                       "RefuseLeavesUnchanged, NoDeadEnd). K2 is a listed known finding.", "5-C13")
+CLAIMS["C14"] = _claim("cancel-jobs issued at every scheduling step of base schedules and at random moments of random submissions, "
+                       "followed by try-submit-jobs/show-status sequences; traces validated by TLC against NoSbatchAfterCancel, "
+                       "ActiveBatchesCancelled (simulated scancel with SLURM's return codes), MissingExact, FinishedKeepResults, "
+                       "RowsNeverLost.", "5-C14")
+CLAIMS["C16"] = _claim("All 16 set/unset combinations of the four lifecycle commands x local/HPC x random DAGs and schedules; the "
+                       "commands are served by the controller and recorded with host, batch, environment, rows on disk and live "
+                       "job processes; traces validated by TLC against the hook clauses of JadeMonitor.", "5-C16")
+
 NOT_YET = "check not built yet in this round (the specification and harness are being extended property by property)"
 
 
